@@ -158,38 +158,63 @@ structure Snssai where
   sd : Bytes
   deriving Repr
 
-/-- the UL NAS TRANSPORT wrapper shared by the four `GetUlNasTransport_…` constructors; `full` = the variant
-    that also sets request type, DNN and S-NSSAI -/
-def ulNasTransport (payload : Bytes) (psi : UInt8) (full : Bool) (requestType : UInt8) (dnn : Bytes)
-    (snssai : Option Snssai) : Res Msg := do
-  let L := layout_ULNASTransport
-  let m := initMsg L
+/-- UL NAS TRANSPORT wrapper, statements up to and including the PDU session ID IE -/
+def ulHead (psi : UInt8) : Res Msg := do
+  let m := initMsg layout_ULNASTransport
   let m ← updF m idx_ULNASTransport_SpareHalfOctetAndSecurityHeaderType
     (bits NasSet.SpareHalfOctetAndSecurityHeaderType.SetSecurityHeaderType 0)
   let m ← updF m idx_ULNASTransport_ULNASTRANSPORTMessageIdentity (octet 0x67)
   let m ← updF m idx_ULNASTransport_ExtendedProtocolDiscriminator
     (bits NasSet.ExtendedProtocolDiscriminator.SetExtendedProtocolDiscriminator 0x7E)
   let p ← bits NasSet.PduSessionID2Value.SetPduSessionID2Value psi { sh_PduSessionID2Value.zero with iei := 0x12 }
-  let m := setP m idx_ULNASTransport_PduSessionID2Value (some p)
-  let m ← if full then do
-      -- RequestType: SetIei(0x08) on the zero value writes the high nibble, then the value bits
-      let r ← bits NasSet.RequestType.SetRequestTypeValue requestType (newVal sh_RequestType 0x08)
-      let m := setP m idx_ULNASTransport_RequestType (some r)
-      let m := if dnn.isEmpty then m else
-        -- SetIei, SetLen(uint8(len)), SetDNN: Buffer = len ‖ dnn, Len = uint8(len(Buffer))
-        setP m idx_ULNASTransport_DNN (some { iei := 0x25, len := (dnn.length + 1) % 256,
-                                              data := UInt8.ofNat dnn.length :: dnn })
-      match snssai with
-      | none => pure m
-      | some s =>
-        let v := setLen 4 (newVal sh_SNSSAI 0x22)
-        let v ← bits NasSet.SNSSAI.SetSST s.sst v
-        pure (setP m idx_ULNASTransport_SNSSAI (some { v with data := copyAt v.data 1 4 (s.sd.take 3 ++ List.replicate (3 - s.sd.length) 0) }))
-    else pure m
-  let m ← updF m idx_ULNASTransport_SpareHalfOctetAndPayloadContainerType
-    (bits NasSet.SpareHalfOctetAndPayloadContainerType.SetPayloadContainerType 1)
-  updF m idx_ULNASTransport_PayloadContainer (ok1 fun v =>
-    setContents NasSet.PayloadContainer.SetPayloadContainerContents payload (setLenBuf (payload.length % 65536) v))
+  pure (setP m idx_ULNASTransport_PduSessionID2Value (some p))
+
+/-- `new(nasType.RequestType)`; `SetIei(0x08)` writes the high nibble of the zero octet; then the value bits -/
+def ulRequestTypeIE (requestType : UInt8) : Res Val :=
+  bits NasSet.RequestType.SetRequestTypeValue requestType (newVal sh_RequestType 0x08)
+
+/-- `NewSNSSAI(0x22)`; `SetLen(4)`; `SetSST(uint8(Sst))`; `SetSD(sdTemp)` with `copy(sdTemp[:], sd)` -/
+def ulSnssaiIE (s : Snssai) : Res Val :=
+  match bits NasSet.SNSSAI.SetSST s.sst (setLen 4 (newVal sh_SNSSAI 0x22)) with
+  | .error e => .error e
+  | .ok v => .ok { v with data := copyAt v.data 1 4 (s.sd.take 3 ++ List.replicate (3 - s.sd.length) 0) }
+
+/-- `SetIei`, `SetLen(uint8(len))`, `SetDNN`: Buffer = len ‖ dnn, Len = uint8(len(Buffer)) -/
+def ulDnnIE (dnn : Bytes) : Val := { iei := 0x25, len := (dnn.length + 1) % 256, data := UInt8.ofNat dnn.length :: dnn }
+
+/-- payload container type N1 SM information, then the payload container -/
+def ulTail (m : Msg) (payload : Bytes) : Res Msg :=
+  match updF m idx_ULNASTransport_SpareHalfOctetAndPayloadContainerType
+      (bits NasSet.SpareHalfOctetAndPayloadContainerType.SetPayloadContainerType 1) with
+  | .error e => .error e
+  | .ok m =>
+    updF m idx_ULNASTransport_PayloadContainer (ok1 fun v =>
+      setContents NasSet.PayloadContainer.SetPayloadContainerContents payload (setLenBuf (payload.length % 65536) v))
+
+/-- the UL NAS TRANSPORT wrapper shared by the four `GetUlNasTransport_…` constructors; `full` = the variant
+    that also sets request type, DNN and S-NSSAI -/
+def ulNasTransport (payload : Bytes) (psi : UInt8) (full : Bool) (requestType : UInt8) (dnn : Bytes)
+    (snssai : Option Snssai) : Res Msg :=
+  match ulHead psi with
+  | .error e => .error e
+  | .ok m =>
+    let mid : Res Msg :=
+      if full then
+        match ulRequestTypeIE requestType with
+        | .error e => .error e
+        | .ok r =>
+          let m := setP m idx_ULNASTransport_RequestType (some r)
+          let m := if dnn.isEmpty then m else setP m idx_ULNASTransport_DNN (some (ulDnnIE dnn))
+          match snssai with
+          | none => .ok m
+          | some s =>
+            match ulSnssaiIE s with
+            | .error e => .error e
+            | .ok v => .ok (setP m idx_ULNASTransport_SNSSAI (some v))
+      else .ok m
+    match mid with
+    | .error e => .error e
+    | .ok m => ulTail m payload
 
 def encodeWith (L : Layout) (m : Res Msg) : Res Bytes :=
   match m with
